@@ -10,6 +10,10 @@
 //!   ev H(text) RECS   evaluate the parsed filter with every record of RECS as the subject, against a
 //!                     resolver over RECS (refs form cycles, chains, self loops); the wildcard loop is
 //!                     also compared with the model: -> `C09 weq …`; the relationship loop: -> `C09 rel …`
+//!   evns H(text) ROWS RECS   the same evaluation against a namespace built from the defs grid ROWS (C13's row
+//!                     format) whose `is` lists form CYCLES (self loop, 2-cycle, tail + diamond into a cycle):
+//!                     `^sym` and relationship terms walk the supertypes of the record's defs and must come back
+//!                     (fixed in /repo da32af2); a filter that is a single `^sym` must also give the graph's answer
 //! A panic is caught by the runner (kind `panic`), a hang by the watchdog (kind `hang`), an abort
 //! (stack overflow) by `check` (kind `abort`); each carries this input as the replay.
 
@@ -370,6 +374,57 @@ pub fn exec(_label: &str, input: &str, out: &mut CaseOut) {
                 }
             }
         }
+        "evns" => {
+            let (hex, rest2) = rest.split_once(' ').unwrap_or((rest, ""));
+            let Some(text) = vx::unh(hex) else {
+                out.fail("harness", "unparsable filter text".into());
+                return;
+            };
+            let mut rd = Rd::new(rest2);
+            let Some(rows) = crate::c13::read_rows(&mut rd) else {
+                out.fail("harness", "unparsable defs grid".into());
+                return;
+            };
+            let k: usize = rd.num().unwrap_or(0);
+            let mut recs = Vec::new();
+            for _ in 0..k {
+                match rd.dict() {
+                    Some(d) => recs.push(d),
+                    None => {
+                        out.fail("harness", "unparsable record".into());
+                        return;
+                    }
+                }
+            }
+            let filter = match Filter::try_from(text.as_str()) {
+                Ok(f) => f,
+                Err(e) => {
+                    out.fail("harness", format!("the evaluation case's filter does not parse: {e}"));
+                    return;
+                }
+            };
+            out.nontrivial = true;
+            let o = crate::c13::Oracle::new(&rows);
+            out.stat(if o.on_cycle().is_empty() { "evns:acyclic-namespace" } else { "evns:cyclic-namespace" });
+            let cyc_ns = crate::c13::build_ns(&rows);
+            let recs = Recs { recs };
+            // a filter that is the single term `^sym`: the graph's answer (C13's reflection rule)
+            let single_isa: Option<String> = text.strip_prefix('^').filter(|r| !r.contains(' ')).map(|r| r.to_string());
+            let parts_defined = o.is.keys().filter(|c| c.contains('-')).all(|c| c.split('-').all(|p| o.defined(p)));
+            for rec in &recs.recs {
+                let cx = EvalContext::make(rec, cyc_ns, &recs);
+                let got = filter.eval(&cx); // must return: the watchdog reports a hang with this input
+                out.stat(if got { "evns:match" } else { "evns:no-match" });
+                if let (Some(b), true) = (&single_isa, parts_defined) {
+                    let spec: crate::c13::RecSpec = rec.iter().map(|(k, v)| (k.clone(), v.is_marker())).collect();
+                    let want = o.defined(b) && o.reflect(&spec).contains(b);
+                    if got != want {
+                        out.fail("isa_cyclic_namespace", format!("filter {text:?} on {spec:?}: eval {got}, graph {want}"));
+                    }
+                }
+            }
+            unsafe { crate::c13::free_ns(cyc_ns) };
+        }
         _ => out.fail("harness", format!("unknown mode {mode}")),
     }
 }
@@ -572,6 +627,51 @@ pub fn generate(ctx: &mut Ctx) {
             vx::w_dict(r, &mut toks);
         }
         ctx.case("ev", &toks.join(" "));
+    }
+    // evaluation against namespaces whose `is` lists form cycles (no rng: fixed cases)
+    {
+        use crate::c13::RowSpec;
+        let sy = |s: &str| Some(s.to_string());
+        let grids: Vec<Vec<RowSpec>> = vec![
+            vec![RowSpec::plain("aa", vec![sy("bb")]), RowSpec::plain("bb", vec![sy("aa")])],
+            vec![RowSpec::plain("aa", vec![sy("aa")]), RowSpec::plain("bb", vec![])],
+            vec![
+                RowSpec::plain("t", vec![sy("aa")]),
+                RowSpec::plain("aa", vec![sy("b"), sy("c")]),
+                RowSpec::plain("b", vec![sy("bb")]),
+                RowSpec::plain("c", vec![sy("bb"), sy("zz")]),
+                RowSpec::plain("bb", vec![sy("aa"), sy("m")]),
+                RowSpec::plain("m", vec![]),
+                RowSpec::plain("b-c", vec![sy("t")]),
+                RowSpec::plain("inputs", vec![sy("inputs"), sy("relationship")]),
+                RowSpec::plain("relationship", vec![sy("inputs")]),
+            ],
+        ];
+        let mk = |tags: &[(&str, Value)]| {
+            let mut d = Dict::new();
+            for (k, v) in tags {
+                d.insert(k.to_string(), v.clone());
+            }
+            d
+        };
+        let recs: Vec<Dict> = vec![
+            mk(&[("id", Value::make_ref("r0")), ("aa", Value::make_marker())]),
+            mk(&[("id", Value::make_ref("r1")), ("b", Value::make_marker()), ("c", Value::make_marker()), ("aaRef", Value::make_ref("r0"))]),
+            mk(&[("id", Value::make_ref("r2")), ("m", Value::make_marker()), ("bb", Value::make_int(1)), ("inputs", Value::make_ref("r2"))]),
+            mk(&[("q", Value::make_marker())]),
+        ];
+        let filters = ["^aa", "^bb", "^m", "^zz", "^t", "^b-c", "not q and ^aa", "^aa and ^zz or ^bb", "inputs? ^aa @r0", "inputs? ^bb", "inputs?", "relationship? @r2"];
+        for rows in &grids {
+            for f in filters {
+                let mut toks: Vec<String> = vec!["evns".into(), vx::h(f)];
+                crate::c13::write_rows(rows, &mut toks);
+                toks.push(recs.len().to_string());
+                for r in &recs {
+                    vx::w_dict(r, &mut toks);
+                }
+                ctx.case("evns", &toks.join(" "));
+            }
+        }
     }
     let _ = (show_f, from_or, T::IsA(String::new()));
 }
